@@ -22,7 +22,7 @@ UNITS = {
                     desc="every literal constant and table entry of the u64 serial backend + constants.rs, by(compute) against definitions"),
     "CONST32": dict(engine="verus", template="contracts/const32.vx", props=["C12", "C05"], rlimit=300,
                     desc="same for the u32 serial backend (never compiled on this host)"),
-    "S64": dict(engine="verus", template="contracts/s64.vx", props=["C02", "C11", "C12", "C05"], rlimit=100, timeout_s=1500,
+    "S64": dict(engine="verus", template="contracts/s64.vx", props=["C02", "C11", "C12", "C05", "C14"], rlimit=100, timeout_s=1500,
                 desc="serial u64 scalar backend: every function of u64/scalar.rs (Scalar52) against integer arithmetic mod l, incl. montgomery_reduce, from_bytes_wide"),
     "SGR": dict(engine="verus", template="contracts/sgr.vx", props=["C04", "C07", "C02", "C15", "C14"], rlimit=100,
                 desc="scalar.rs recodings: as_radix_16, non_adjacent_form, as_radix_2w (digit sums and ranges, all inputs), clamp_integer, small Scalar functions"),
@@ -85,6 +85,13 @@ UNITS = {
                       "scalar_from_u64": dict(props=["C02"], functions=["scalar.rs :: From<u64> for Scalar"]),
                       "scalar_from_u128": dict(props=["C02"], functions=["scalar.rs :: From<u128> for Scalar"]),
                   }),
+    "K-INCRATE": dict(engine="kani", incrate="curve25519-dalek", crate="kani/incrate", props=["C07", "C04"], jobs=4, kani_args=["-Z", "stubbing"],
+                      desc="in-crate harnesses behind the cfg(kani) hook: iterator adapter chain bits_le().rev().skip(1) yields bits 254..0 (residual of unit MONT)",
+                      trusted=["Kani/CBMC/CaDiCaL"],
+                      harnesses={
+                          "bits_le_rev_skip1_yields_bits_254_down_to_0": dict(functions=["curve25519-dalek/src/scalar.rs :: Scalar::bits_le + Rev/Skip adapters as used by montgomery.rs Mul<&Scalar>"]),
+                          "bits_le_yields_256_bits_little_endian": dict(functions=["curve25519-dalek/src/scalar.rs :: Scalar::bits_le"]),
+                      }),
     "K-ZERO": dict(engine="kani", crate="kani/zero", props=["C14"],
                    desc="drop glue / Zeroize of the secret-holding types of x25519-dalek and ed25519-dalek, on the real crates, complete in the secret value",
                    trusted=["Kani/CBMC/CaDiCaL", "--cfg miri build of zeroize/cpufeatures (asm-free fallback; optimisation barrier not modelled)",
